@@ -346,6 +346,9 @@ class Budget(Exception):
     pass
 
 
+RUNS = {}       # function -> number of path summaries (for the evidence)
+
+
 class PathSum(object):
     def __init__(self, db, cg, inline=(), opaque=(), max_paths=6000,
                  implicit_raises=True, max_depth=5, unroll=8,
@@ -405,6 +408,8 @@ class PathSum(object):
                                                           'continue'):
                 raise self.err('break/continue outside a loop', fi.node, fi)
             paths.append(Path(s))
+        RUNS['%s:%s' % (fi.module.name.split('.')[-1], fi.qualname)] = \
+            len(paths)
         return paths
 
     # -- statements ----------------------------------------------------------
